@@ -154,7 +154,8 @@ def ref_volume(itf, S_net, vol, timepoints, uniform, dt, t0=0.0):
         prop = timepoints[ci]
         if lam > 0:
             prop, fired = t + (-1.0 / lam * math.log(uniform())), True
-        move = nvt < prop
+        # with no reaction pending, a volume step that coincides with the grid time is taken (growth is not skipped)
+        move = nvt < prop or (lam == 0 and nvt <= prop)
         if move:
             t, fired = nvt, False
             nvt += dt
@@ -258,9 +259,75 @@ def _scaled(spec):
     return ((["A", "B"], [(["A"], ["B"], "massaction", {"k": k})], [], {"A": 5, "B": 0}), grid, dt, dt)
 
 
+def replay_reuse(spec):
+    """initialisation / aliasing obligations: a run starts from the interface's initial state, works on a copy of it and
+    leaves interface and model as they were - observable by running twice on the same objects"""
+    import warnings
+    warnings.simplefilter("ignore")
+    from bioscrape.types import Model
+    from bioscrape.simulator import (ModelCSimInterface, SafeModelCSimInterface, SSASimulator, DelaySSASimulator, VolumeSSASimulator,
+                                     DelayVolumeSSASimulator, ArrayDelayQueue, py_simulate_model)
+    from bioscrape.random import py_seed_random
+    kind = spec.get("kind", "ssa")
+    grid = np.linspace(0, 2, 9)
+    dt = grid[1] - grid[0]
+    problems = []
+    species, rxns, params, init = _models("delay")[4]
+    for safe in (False, True):
+        M = Model(species=species, reactions=rxns, parameters=params, initial_condition_dict=init)
+        itf = (SafeModelCSimInterface if safe else ModelCSimInterface)(M)
+        itf.py_set_initial_time(0.0)
+        itf.py_set_dt(dt)
+        want0 = [float(init[s_]) for s_ in M.get_species_list()]
+        before = (dict(M.get_species_dictionary()), dict(M.get_parameter_dictionary()))
+        outs = []
+        for rep in range(2):
+            py_seed_random(5)
+            if kind == "ssa":
+                r = SSASimulator().py_simulate(itf, grid.copy())
+            elif kind == "delay":
+                r = DelaySSASimulator().py_delay_simulate(itf, ArrayDelayQueue.setup_queue(len(rxns), len(grid), dt), grid.copy())
+            elif kind == "volume":
+                r = VolumeSSASimulator().py_volume_simulate(itf, _mkvol(False), grid.copy())
+            else:
+                r = DelayVolumeSSASimulator().py_delay_volume_simulate(itf, ArrayDelayQueue.setup_queue(len(rxns), len(grid), dt), _mkvol(False), grid.copy())
+            outs.append(np.asarray(r.py_get_result(), dtype=float))
+            x_now = [float(v) for v in itf.py_get_initial_state()]
+            if x_now != want0:
+                problems.append("%s%s run %d changed the interface's initial state: %s -> %s" % (kind, " (safe)" if safe else "", rep + 1, want0, x_now))
+                break
+            if list(outs[-1][0]) != want0:
+                problems.append("%s%s run %d does not start at the initial condition: first row %s, initial condition %s" % (kind, " (safe)" if safe else "", rep + 1, list(outs[-1][0]), want0))
+                break
+        if len(outs) == 2 and not problems and (outs[0].shape != outs[1].shape or not np.array_equal(outs[0], outs[1])):
+            problems.append("%s%s: the same seed on the same interface gives a different second run" % (kind, " (safe)" if safe else ""))
+        after = (dict(M.get_species_dictionary()), dict(M.get_parameter_dictionary()))
+        if before != after:
+            problems.append("%s%s: the run changed the model: %s -> %s" % (kind, " (safe)" if safe else "", before, after))
+        # through the entry point, re-using the model
+        kw = dict(stochastic=True, delay=kind in ("delay", "delay_volume"), safe=safe)
+        if kind in ("volume", "delay_volume"):
+            kw["volume"] = 1.5
+        M2 = Model(species=species, reactions=rxns, parameters=params, initial_condition_dict=init)
+        firsts = []
+        for rep in range(2):
+            py_seed_random(5)
+            df = py_simulate_model(grid.copy(), Model=M2, **kw)
+            firsts.append([float(df[s_].iloc[0]) for s_ in M2.get_species_list()])
+        if firsts[0] != want0 or firsts[1] != want0:
+            problems.append("py_simulate_model(%s) called twice on one model: first rows %s, initial condition %s" % (kw, firsts, want0))
+        if problems:
+            break
+    return {"reproduced": bool(problems), "observed": problems[:3], "expected": "runs start from, and leave alone, the initial condition"}
+
+
 def replay(spec):
     import warnings
     warnings.simplefilter("ignore")
+    if spec.get("facet") == "reuse":
+        r = replay_reuse(spec)
+        if r.get("reproduced"):
+            return r                     # otherwise: the initialisation may still show in the differential battery below
     from bioscrape.types import Model
     from bioscrape.simulator import (ModelCSimInterface, SSASimulator, DelaySSASimulator, VolumeSSASimulator,
                                      DelayVolumeSSASimulator, ArrayDelayQueue)
@@ -278,8 +345,8 @@ def replay(spec):
     if sc is not None:
         configs.append(("scaled",) + sc)
     for mi, mdl in enumerate(_models(kind)):
-        for grid in (np.linspace(0, 3, 7), np.linspace(0, 2, 9)) + \
-                ((np.array([0.0, 0.1, 0.5, 0.6, 2.0, 4.0]),) if kind == "ssa" else ()):
+        for grid in (np.linspace(0, 3, 7), np.linspace(0, 2, 9), np.linspace(1.0, 3.0, 5)) + \
+                ((np.array([0.0, 0.1, 0.5, 0.6, 2.0, 4.0]),) if kind == "ssa" else ()):        # one grid starts after the initial time 0
             dt = grid[1] - grid[0]
             qdt = dt
             if kind == "delay_volume" and spec.get("misaligned", True) and len(grid) == 9:
